@@ -2,19 +2,23 @@
 
 package c05
 
-//go:noinline
-func S1(a int) int { return -1000 - a }
+// pad keeps the hot-loop targets longer than goom's 13-byte entry jump (a tiny function whose jump overhangs
+// into padding can crash the runtime unwinder when a signal lands on the jump: recorded under C11)
+var pad int
 
 //go:noinline
-func S2(a int) int { return -2000 - a }
+func S1(a int) int { return -1000 - a + pad*3 }
 
 //go:noinline
-func S3(a int, s string) (int, string) { return -3000 - a, s }
+func S2(a int) int { return -2000 - a + pad*3 }
+
+//go:noinline
+func S3(a int, s string) (int, string) { return -3000 - a + pad*3, s }
 
 type T struct{ v int }
 
 //go:noinline
-func (t *T) M(a int) int { return -4000 - a - t.v }
+func (t *T) M(a int) int { return -4000 - a - t.v + pad*3 }
 
 type I interface {
 	Get(a int) int
